@@ -99,6 +99,7 @@ where
         status_on_unsat: bool,
     ) -> (bool, Option<Vec<&Argument<T>>>) {
         let mut merged = Vec::new();
+        let mut found_accepting_cc = !assumption_polarity;
         for cc_af in ConnectedComponentsComputer::iter_connected_components(self.af) {
             let mut solver = (self.solver_factory)();
             self.constraints_encoder
@@ -114,6 +115,7 @@ where
                     let clause = args_in_cc
                         .iter()
                         .map(|a| self.constraints_encoder.arg_to_lit(a))
+                        .chain(std::iter::once(selector.negate()))
                         .collect::<Vec<Literal>>();
                     opt_selector = Some(selector);
                     solver.add_clause(clause);
@@ -124,11 +126,16 @@ where
                         .map(|a| self.constraints_encoder.arg_to_lit(a).negate())
                         .collect::<Vec<Literal>>()
                 };
-                let result = solver
+                let mut result = solver
                     .solve_under_assumptions(&assumption_lits)
                     .unwrap_model();
                 if assumption_polarity {
                     solver.add_clause(vec![opt_selector.unwrap().negate()]);
+                    if result.is_some() {
+                        found_accepting_cc = true;
+                    } else {
+                        result = solver.solve().unwrap_model();
+                    }
                 }
                 match result {
                     Some(assignment) => {
@@ -164,6 +171,9 @@ where
                     None => return (status_on_unsat, None),
                 }
             }
+        }
+        if !found_accepting_cc {
+            return (status_on_unsat, None);
         }
         (!status_on_unsat, Some(merged))
     }
